@@ -480,11 +480,16 @@ def render_len(c, count_field=None, count=0):
     cnt = ""
     if count_field is not None:
         cnt = f'    assert!(bytes[{count_field}] as usize == {count}, "the element-count byte equals the number of elements that follow");\n'
+    # a computed pad (pad_after = <expression>) is written by a loop whose trip count CBMC does
+    # not constant-fold: bound it (unwinding assertions stay on, so the bound is checked)
+    unwind = ""
+    if any(re.search(r"pad_(after|before)\s*=\s*[^0-9\s]", f.attr_text()) for f in it.fields):
+        unwind = "#[kani::unwind(10)]\n"
     return hname, f"""
 {chr(10).join(meta)}
 #[kani::proof]
 #[kani::stub(core::fmt::write, verif_fmt_ok)]
-fn {hname}() {{
+{unwind}fn {hname}() {{
     let p = {c['val']};
 {c['assume_txt']}    let mut w = Cursor::new(Vec::new());
     let r = p.write_le(&mut w);
